@@ -28,6 +28,7 @@ func init() {
 	caddy.RegisterModule(probeWrapper{})
 	caddy.RegisterModule(probeEvents{})
 	caddy.RegisterModule(probeLoader{})
+	caddy.RegisterModule(probeAdmin{})
 }
 
 func cb(kind byte, gen int, mod string) error {
@@ -175,7 +176,31 @@ func (p *probeLoader) Provision(caddy.Context) error {
 
 func (p *probeLoader) LoadConfig(caddy.Context) ([]byte, error) { return nil, nil }
 
+// ---- admin API router: every admin endpoint (adminHandler) gets its own instance, created by
+// replaceLocalAdminServer while the load that starts the endpoint is in progress; it answers with
+// the index of that load.
+
+type probeAdmin struct{ gen int }
+
+func (probeAdmin) CaddyModule() caddy.ModuleInfo {
+	return caddy.ModuleInfo{ID: "admin.api.verif_c02", New: func() caddy.Module {
+		g := -1
+		if r := cur.Load(); r != nil {
+			g = r.loading
+		}
+		return &probeAdmin{gen: g}
+	}}
+}
+
+func (p *probeAdmin) Routes() []caddy.AdminRoute {
+	return []caddy.AdminRoute{{Pattern: "/verif_c02/", Handler: caddy.AdminHandlerFunc(func(w http.ResponseWriter, _ *http.Request) error {
+		fmt.Fprintf(w, "gen=%d\n", p.gen)
+		return nil
+	})}}
+}
+
 var (
+	_ caddy.AdminRouter           = (*probeAdmin)(nil)
 	_ caddy.ConfigLoader          = (*probeLoader)(nil)
 	_ caddy.App                   = (*probeAppA)(nil)
 	_ caddy.Provisioner           = (*probeAppA)(nil)
